@@ -713,6 +713,8 @@ func checkC09(w *World) {
 	w.xmlDeclarationDiscarded(P, pull)
 	// R09.9 adjacent character data is one text node
 	w.charDataMerged(P, pull)
+	// R09.11 character data outside the document element
+	w.topLevelCharData(P, pull)
 	// R09.10 xmlns="" removes a binding
 	w.namespaceUndeclared(P)
 	// namespace nodes belong to their element: ownership rules of the store
@@ -1442,4 +1444,171 @@ func (w *World) namespaceUndeclared(P string) {
 	})
 	w.check(P, "R09.10", "inherited binding removed on an empty namespace name", where, removed, fmt.Sprintf("on the path where NamespaceValue() is empty the namespaces list is stored back without the entry of that prefix: %v", removed))
 	w.floor(P, "R09.10", 2)
+}
+
+// topLevelCharData (R09.11): white space before and after the document element is not part of the XPath data model
+// (the root node has the document element, comments and processing instructions as children, never text), but
+// encoding/xml reports it as CharData tokens like any other. An adapter that does not know whether it is inside an
+// element cannot tell the two apart. Necessary shape:
+//   (a) an integer field of the adapter is incremented where the token is an xml.StartElement and decremented where
+//       it is an xml.EndElement (the nesting depth);
+//   (b) inside the xml.CharData arm a branch compares that field with 0, and from its "depth is zero" edge some
+//       path obtains a new token without returning (the character data can be dropped there).
+func (w *World) topLevelCharData(P string, pull *ssa.Function) {
+	docRule(P, "R09.11", "D+F", "character data outside the document element is not a text node: the XML pull adapter keeps a nesting depth (an integer field incremented under the xml.StartElement assertion and decremented under the xml.EndElement assertion), and in its xml.CharData arm a branch on that field compared with 0 leads, on the zero side, to a path that reads the next token without returning a node: `<?xml ...?>\\n<r/>\\n` has one child of the root, not three.")
+	var scope []*ssa.Function
+	for g := range staticReach(pull, func(x *ssa.Function) bool { return fnPkgKey(x) == "parser" }) {
+		if fnPkgKey(g) == "parser" {
+			scope = append(scope, g)
+		}
+	}
+	sortFuncs(scope)
+	inScope := map[*ssa.Function]bool{}
+	for _, g := range scope {
+		inScope[g] = true
+	}
+	underToken := func(b *ssa.BasicBlock, name string) bool {
+		arms := typeSwitchArms(b.Parent())[b]
+		for ta := range arms {
+			if n, ok := types.Unalias(ta.AssertedType).(*types.Named); ok && n.Obj().Pkg() != nil && n.Obj().Pkg().Path() == "encoding/xml" && n.Obj().Name() == name {
+				return true
+			}
+		}
+		for _, a := range guardAtoms(b) {
+			if ex, ok := a.V.(*ssa.Extract); ok && ex.Index == 1 && a.Pol {
+				if ta, ok := ex.Tuple.(*ssa.TypeAssert); ok {
+					if n, ok := types.Unalias(ta.AssertedType).(*types.Named); ok && n.Obj().Pkg() != nil && n.Obj().Pkg().Path() == "encoding/xml" && n.Obj().Name() == name {
+						return true
+					}
+				}
+			}
+		}
+		return false
+	}
+	// (a) depth field
+	inc := map[int]bool{}
+	dec := map[int]bool{}
+	for _, g := range scope {
+		allInstrs(g, func(in ssa.Instruction) {
+			st, ok := in.(*ssa.Store)
+			if !ok {
+				return
+			}
+			fa, ok := st.Addr.(*ssa.FieldAddr)
+			if !ok || len(g.Params) == 0 || fa.X != ssa.Value(g.Params[0]) {
+				return
+			}
+			bo, ok := st.Val.(*ssa.BinOp)
+			if !ok {
+				return
+			}
+			k, isK := constInt(bo.Y)
+			ld, isLd := bo.X.(*ssa.UnOp)
+			if !isK || k != 1 || !isLd {
+				return
+			}
+			if fa2, ok := ld.X.(*ssa.FieldAddr); !ok || fa2.Field != fa.Field || fa2.X != fa.X {
+				return
+			}
+			if bo.Op == token.ADD && underToken(st.Block(), "StartElement") {
+				inc[fa.Field] = true
+			}
+			if bo.Op == token.SUB && underToken(st.Block(), "EndElement") {
+				dec[fa.Field] = true
+			}
+		})
+	}
+	depth := -1
+	for fld := range inc {
+		if dec[fld] {
+			depth = fld
+		}
+	}
+	w.check(P, "R09.11", "nesting depth of the adapter", pull.Pos(), depth >= 0, fmt.Sprintf("an integer field is incremented for xml.StartElement tokens and decremented for xml.EndElement tokens: %v (without a depth the adapter cannot tell white space around the document element from text inside it: count(/node()) is 3 for a document element between two line breaks)", depth >= 0))
+	if depth < 0 {
+		w.floor(P, "R09.11", 1)
+		return
+	}
+	fresh := func(b *ssa.BasicBlock) bool {
+		for _, in := range b.Instrs {
+			c, ok := in.(ssa.CallInstruction)
+			if !ok {
+				continue
+			}
+			if sc := c.Common().StaticCallee(); sc != nil {
+				fn := funcFullName(sc)
+				if fn == "(*encoding/xml.Decoder).Token" || fn == "(*encoding/xml.Decoder).RawToken" {
+					return true
+				}
+				if inScope[sc] && lastResultIsError(sc) {
+					if tc, _ := w.tokenSource(sc, "Token", 0); tc != nil {
+						return true
+					}
+				}
+			}
+		}
+		return false
+	}
+	dropOK := false
+	var where token.Pos
+	for _, g := range scope {
+		allInstrs(g, func(in ssa.Instruction) {
+			iff, ok := in.(*ssa.If)
+			if !ok || !underToken(iff.Block(), "CharData") {
+				return
+			}
+			bo, ok := iff.Cond.(*ssa.BinOp)
+			if !ok {
+				return
+			}
+			ld, isLd := bo.X.(*ssa.UnOp)
+			k, isK := constInt(bo.Y)
+			if !isLd || !isK || k != 0 {
+				return
+			}
+			fa, ok := ld.X.(*ssa.FieldAddr)
+			if !ok || fa.Field != depth {
+				return
+			}
+			// which successor is "depth is zero (or below)"
+			zero := -1
+			switch bo.Op {
+			case token.EQL, token.LEQ:
+				zero = 0
+			case token.NEQ, token.GTR:
+				zero = 1
+			}
+			if zero < 0 {
+				return
+			}
+			where = iff.Pos()
+			seen := map[*ssa.BasicBlock]bool{}
+			var walk func(b *ssa.BasicBlock) bool
+			walk = func(b *ssa.BasicBlock) bool {
+				if seen[b] {
+					return false
+				}
+				seen[b] = true
+				if fresh(b) {
+					return true
+				}
+				for _, in2 := range b.Instrs {
+					if _, isRet := in2.(*ssa.Return); isRet {
+						return false
+					}
+				}
+				for _, s := range b.Succs {
+					if walk(s) {
+						return true
+					}
+				}
+				return false
+			}
+			if walk(iff.Block().Succs[zero]) {
+				dropOK = true
+			}
+		})
+	}
+	w.check(P, "R09.11", "character data at depth zero can be dropped", where, dropOK, fmt.Sprintf("in the xml.CharData arm a branch on the depth leads, on its zero side, to the next token without a return: %v", dropOK))
+	w.floor(P, "R09.11", 2)
 }
